@@ -510,9 +510,12 @@ def _work(job):
 
 
 def _work_(job):
-    """job = (worker scratch dir, [task]); task = (case key, cands, opt) -> [(key, violations)], stats"""
-    d, tasks = job
+    """job = (worker scratch dir, file of tasks); task = (case key, cands, opt) -> [(key, violations, n)], stats"""
+    d, fn = job
+    with open(fn, "rb") as f: tasks = pickle.load(f)
     os.makedirs(d, exist_ok=True)
+    sys.unraisablehook = lambda *a: None        # generators of aborted virtual schedules are finalised outside the scheduler
+    import threading; threading.excepthook = lambda *a: None
     res = []; stats = collections.Counter()
     for key, cands, opt in tasks:
         opt = dict(opt, path=os.path.join(d, "envs.zip"))
@@ -561,93 +564,116 @@ def configs(ctx):
             "NI <- NI3": "NI <- " + ni, "SelfSet <- SelfB": "SelfSet <- " + selfset, "ProcSet <- P1": "ProcSet <- " + procs, "OwSet <- OwBoth": "OwSet <- " + ow,
             "FaultSet <- FAll": "FaultSet <- " + faults, "ExtSet <- ESome": "ExtSet <- " + ext, "MaxCalls = 2": "MaxCalls = %d" % calls}))
     add("p1-wide", "SelfAq" if q else "SelfA", "P1", "FAll", "EAll", 2, required=ACTIONS, sample_modes=dict(same=ctx.pick(0.5, 1.0), chain=ctx.pick(0.2, 1.0)))
-    add("p1-deep", "SelfQ", "P1", "FAll", "ESome", 3, modes=("fresh", "same"), simulate=dict(num=400, depth=60) if q else None, sample_modes=dict(same=ctx.pick(0.5, 0.3)))
+    add("p1-deep", "SelfQ" if q else "SelfQ2", "P1", "FAll", "ESome", 3, modes=("fresh", "same"), simulate=dict(num=400, depth=60) if q else None, sample_modes=dict(same=ctx.pick(0.5, 0.3)))
     add("p1-sink", "SelfSink", "P1", "FCrash", "ESink", 2 if q else 3, modes=("fresh", "same"), sample_modes=dict(fresh=ctx.pick(0.5, 1.0)))
     add("p1-batch", "SelfBatch", "P1", "FCrash", "ENone", 2, ni="NI5", modes=("fresh",) if q else ("fresh", "same"), sample=ctx.pick(250, None))
     add("p2", "SelfQ2" if q else "SelfC", "P2", "FAll", "ESome" if q else "ENone", 2, modes=("fresh", "same"), sample=ctx.pick(220, 5000))
+    add("p1-many", "SelfMany", "P1", "FKill", "ENone", 2, modes=("fresh",), sample=ctx.pick(120, 1500))
     if not q:
         add("p1-other", "SelfD", "P1", "FAll", "EAll", 2)
         add("p1-long", "SelfQ", "P1", "FAll", "ESome", 4, modes=("fresh", "same"), simulate=dict(num=6000, depth=80))
-        add("p2-deep", "SelfQ2", "P2", "FRead", "ENone", 3, modes=("fresh", "same"), sample=2500)
+        add("p2-deep", "SelfQ2", "P2", "FRead", "ENone", 3, ow="OwNo", modes=("fresh", "same"), sample=2500)
     return C
 
 
 def run(ctx):
-    rng = random.Random(ctx.seed)
     C = configs(ctx)
+    NCH = 12                                   # chunk files per configuration
+    lock_free = {}
 
-    # ---- 1. TLC: the protocol, its guards, liveness; the behaviours ----
-    def tlc_job(job):
-        name, base, sub, kw = job
-        cfg = tracecheck._cfg(base, sub, ctx.scratch, "es_%s.cfg" % name)
-        return name, tlc.run("MC_EnvSave", cfg, ctx.scratch, timeout=1700, heap="6g", **kw)
-    jobs = [(c["name"], "EnvSave.cfg", c["sub"], dict(workers=4, coverage=bool(c["required"]), **(dict(simulate=dict(num=c["simulate"]["num"]), depth=c["simulate"]["depth"], seed=ctx.seed) if c["simulate"] else {}))) for c in C]
-    for g, _, _ in GUARDS:
-        jobs.append(("guard-" + g, "EnvSave.cfg", {'Variant = "ok"': 'Variant = "%s"' % g, "Record = TRUE": "Record = FALSE"}, dict(workers=1)))
-    jobs.append(("live", "EnvSave_live.cfg", {} if not ctx.quick else {"MaxCalls = 3": "MaxCalls = 2"}, dict(workers=4)))
-    with ThreadPoolExecutor(max_workers=3) as ex:
-        results = dict(ex.map(tlc_job, jobs))
-    ctx.extra["tlc_wall_s"] = {k: round(v.wall, 1) for k, v in results.items()}
-    for g, what, expect in GUARDS:
-        r = results["guard-" + g]; ctx.add_tlc("EnvSave guard " + g, r)
-        names = {v["name"] for v in r.violations}
-        if not (names & expect):
-            raise RuntimeError("the broken design %r (%s) is not rejected by any of %s: the invariants are vacuous (TLC reported %s)" % (g, what, sorted(expect), sorted(names)))
-    ctx.extra["guards_rejected"] = {g: sorted({v["name"] for v in results["guard-" + g].violations}) for g, _, _ in GUARDS}
-    r = results["live"]; ctx.add_tlc("EnvSave liveness (FairSpec, Terminates)", r)
-    for v in r.violations:
-        ctx.violation("spec:%s" % (v["name"] or v["kind"]), "EnvSave.tla (liveness configuration) violates %s" % (v["name"] or v["kind"]), v["trace"][:60])
-    behs = {}
-    for c in C:
-        r = results[c["name"]]
-        ctx.add_tlc("EnvSave " + c["name"], r, required_actions=c["required"])
-        for v in r.violations:
-            ctx.violation("spec:%s" % (v["name"] or v["kind"]), "EnvSave.tla (%s) itself violates %s" % (c["name"], v["name"]), v["trace"][:60])
+    # ---- 1. TLC: the protocol, its guards, liveness; the behaviours.  Each configuration's behaviours are turned into replay
+    #         tasks and written to chunk files at once, so that only a few configurations are in memory at any time ----
+    def prepare(c, r):
         groups = collections.OrderedDict()
         for j in sorted((j for j in r.json if isinstance(j, dict) and "calls" in j), key=lambda j: json.dumps(j, sort_keys=True)):
             groups.setdefault(input_key(j), []).append(j)
-        if len(groups) < 20: raise RuntimeError("EnvSave %s produced only %d behaviours" % (c["name"], len(groups)))
-        behs[c["name"]] = groups
-    ctx.exhaustive = True      # the configurations without `simulate` are enumerated completely; the simulated ones are samples (ctx.extra)
-    ctx.extra["sampled_configurations"] = [c["name"] for c in C if c["simulate"] or c["sample"]]
-    ctx.extra["behaviours"] = {k: dict(inputs=len(g), behaviours=sum(len(x) for x in g.values())) for k, g in behs.items()}
-
-    import time as _t; ctx.extra["tlc_done_at_s"] = round(_t.time() - ctx.t0, 1)
-    # ---- 2. every behaviour on the real code (a pool of worker processes; each has its own file) ----
-    tasks = []
-    for c in C:
-        keys = list(behs[c["name"]])
+        info = dict(inputs=len(groups), behaviours=sum(len(x) for x in groups.values()), files=[], real=[], sample=None)
+        keys = list(groups)
         if c["sample"] and len(keys) > c["sample"]:
             keys = sorted(random.Random(ctx.seed + 7).sample(keys, c["sample"]))
+        tasks = []
         for n, k in enumerate(keys):
-            cands = behs[c["name"]][k]
+            cands = groups[k]
             has_p2 = any(cl.get("procs") == 2 for cl in cands[0]["calls"])
             for mode in c["modes"]:
                 frac = c["sample_modes"].get(mode, 1.0)
                 if frac < 1.0 and (int(hashlib.sha1((mode + k).encode()).hexdigest()[:6], 16) % 1000) >= frac * 1000: continue
-                nsched = 1 if not has_p2 else ctx.pick(1, 2)
-                for sidx in range(nsched):
+                for sidx in range(1 if not has_p2 else ctx.pick(1, 2)):
                     seed = (ctx.seed * 1000003 + int(hashlib.sha1((c["name"] + mode + k).encode()).hexdigest()[:8], 16) + sidx) % (1 << 30)
-                    tasks.append(((c["name"], mode, k, sidx), cands, dict(mode=mode, seed=seed, logger=n + sidx, impl="vmp")))
-    # every byte position of a torn write (both image styles), resumed with and without overwrite
-    sweeps = []
-    seen = set()
-    for k, cands in behs["p1-wide"].items():
-        b = cands[0]; c1, c2 = b["calls"]
-        if c1["op"] == "save" and c1["fault"]["t"] == "torn" and c2["op"] == "save" and c2["fault"]["t"] == "none" and c2["self"] == c1["self"] and len(c1["self"]) >= 2:
-            sk = (tuple(c1["self"]), c1["fault"]["at"])
-            if (sk, c2["ow"]) in seen: continue
-            seen.add((sk, c2["ow"])); sweeps.append((k, cands))
-    rng.shuffle(sweeps)
-    for k, cands in sweeps[:ctx.pick(2, 16)]:
-        tasks.append((("sweep", k), cands, dict(mode="fresh", seed=ctx.seed, logger=0, sweep=True)))
-    nproc = 8
-    chunks = [[] for _ in range(nproc * 6)]
-    for i, t in enumerate(tasks): chunks[i % len(chunks)].append(t)
-    jobs = [(os.path.join(ctx.scratch, "w%d" % i), ch) for i, ch in enumerate(chunks) if ch]
+                    tasks.append(((c["name"], mode, hashlib.sha1(k.encode()).hexdigest()[:16], sidx), cands, dict(mode=mode, seed=seed, logger=n + sidx, impl="vmp")))
+        if c["name"] == "p1-wide":
+            # every byte position of a torn write (both image styles), resumed with and without overwrite
+            sweeps = []; seen = set()
+            for k, cands in groups.items():
+                c1, c2 = cands[0]["calls"]
+                if c1["op"] == "save" and c1["fault"]["t"] == "torn" and c2["op"] == "save" and c2["fault"]["t"] == "none" and c2["self"] == c1["self"] and len(c1["self"]) >= 2 and c1["out"] == "killed":
+                    sk = (tuple(c1["self"]), c1["fault"]["at"], c2["ow"])
+                    if sk in seen: continue
+                    seen.add(sk); sweeps.append((k, cands))
+            random.Random(ctx.seed).shuffle(sweeps)
+            for k, cands in sweeps[:ctx.pick(2, 12)]:
+                tasks.append((("sweep", hashlib.sha1(k.encode()).hexdigest()[:16]), cands, dict(mode="fresh", seed=ctx.seed, logger=0, sweep=True)))
+        if c["name"] == "p2":
+            def pick(pred, n):
+                ks = [k for k in groups if pred(groups[k][0]["calls"])]
+                return random.Random(ctx.seed + 11).sample(ks, min(n, len(ks)))
+            for k in (pick(lambda cs: all(x["op"] == "save" and x["fault"]["t"] == "none" for x in cs) and len(cs[0]["self"]) >= 2, ctx.pick(2, 8))
+                      + pick(lambda cs: cs[0]["op"] == "save" and cs[0]["fault"]["t"] == "readfail" and cs[1]["op"] == "save" and cs[1]["fault"]["t"] == "none" and len(cs[0]["self"]) >= 2, ctx.pick(2, 8))):
+                info["real"].append(groups[k])
+        if c["name"] == "p1-deep" and groups:
+            b0 = next(iter(groups.values()))[0]
+            info["sample"] = dict(behaviour=show(b0), expected=[dict(out=x["out"], ret=x.get("ret"), archive=pairs(x["arch"]), damaged=x["damaged"]) for x in b0["calls"]])
+        for i in range(NCH):
+            part = tasks[i::NCH]
+            if not part: continue
+            fn = os.path.join(ctx.scratch, "tasks_%s_%d.pkl" % (c["name"], i))
+            with open(fn, "wb") as f: pickle.dump(part, f, protocol=pickle.HIGHEST_PROTOCOL)
+            info["files"].append(fn)
+        info["tasks"] = len(tasks)
+        return info
+
+    def tlc_job(job):
+        name, base, sub, kw, c = job
+        cfg = tracecheck._cfg(base, sub, ctx.scratch, "es_%s.cfg" % name)
+        r = tlc.run("MC_EnvSave", cfg, ctx.scratch, timeout=1700, heap="4g", **kw)
+        info = prepare(c, r) if c else None
+        r.json = []; r.out = ""                 # the behaviours now live in the chunk files
+        return name, (r, info)
+    jobs = [(c["name"], "EnvSave.cfg", c["sub"], dict(workers=4, coverage=bool(c["required"]), **(dict(simulate=dict(num=c["simulate"]["num"]), depth=c["simulate"]["depth"], seed=ctx.seed) if c["simulate"] else {})), c) for c in C]
+    for g, _, _ in GUARDS:
+        jobs.append(("guard-" + g, "EnvSave.cfg", {'Variant = "ok"': 'Variant = "%s"' % g, "Record = TRUE": "Record = FALSE"}, dict(workers=1), None))
+    jobs.append(("live", "EnvSave_live.cfg", {} if not ctx.quick else {"MaxCalls = 3": "MaxCalls = 2"}, dict(workers=4), None))
+    with ThreadPoolExecutor(max_workers=3) as ex:
+        results = dict(ex.map(tlc_job, jobs))
+    ctx.extra["tlc_wall_s"] = {k: round(v[0].wall, 1) for k, v in results.items()}
+    for g, what, expect in GUARDS:
+        r = results["guard-" + g][0]; ctx.add_tlc("EnvSave guard " + g, r)
+        names = {v["name"] for v in r.violations}
+        if not (names & expect):
+            raise RuntimeError("the broken design %r (%s) is not rejected by any of %s: the invariants are vacuous (TLC reported %s)" % (g, what, sorted(expect), sorted(names)))
+    ctx.extra["guards_rejected"] = {g: sorted({v["name"] for v in results["guard-" + g][0].violations}) for g, _, _ in GUARDS}
+    r = results["live"][0]; ctx.add_tlc("EnvSave liveness (FairSpec, Terminates)", r)
+    for v in r.violations:
+        ctx.violation("spec:%s" % (v["name"] or v["kind"]), "EnvSave.tla (liveness configuration) violates %s" % (v["name"] or v["kind"]), v["trace"][:60])
+    files = []; real = []
+    for c in C:
+        r, info = results[c["name"]]
+        ctx.add_tlc("EnvSave " + c["name"], r, required_actions=c["required"])
+        for v in r.violations:
+            ctx.violation("spec:%s" % (v["name"] or v["kind"]), "EnvSave.tla (%s) itself violates %s" % (c["name"], v["name"]), v["trace"][:60])
+        if info["inputs"] < 20: raise RuntimeError("EnvSave %s produced only %d behaviours" % (c["name"], info["inputs"]))
+        files += info["files"]; real += info["real"]
+        if info["sample"]: ctx.sample(info["sample"])
+    ctx.exhaustive = True      # the configurations without `simulate` are enumerated completely by TLC; `sampled_configurations` says which are replayed in part
+    ctx.extra["sampled_configurations"] = [c["name"] for c in C if c["simulate"] or c["sample"]]
+    ctx.extra["behaviours"] = {c["name"]: {k: results[c["name"]][1][k] for k in ("inputs", "behaviours", "tasks")} for c in C}
+    import time as _t; ctx.extra["tlc_done_at_s"] = round(_t.time() - ctx.t0, 1)
+
+    # ---- 2. every behaviour on the real code (a pool of worker processes; each has its own file) ----
+    jobs = [(os.path.join(ctx.scratch, "w%d" % i), fn) for i, fn in enumerate(files)]
     stats = collections.Counter()
     from concurrent.futures import ProcessPoolExecutor
-    with ProcessPoolExecutor(max_workers=nproc, mp_context=multiprocessing.get_context("fork")) as pool:
+    with ProcessPoolExecutor(max_workers=8, mp_context=multiprocessing.get_context("fork")) as pool:
         for res, s in pool.map(_work, jobs):
             stats.update(s)
             for key, viols, n in res:
@@ -657,28 +683,20 @@ def run(ctx):
                     ctx.case(key)
                 ctx.traces += n
                 for sig, what, rep in viols: ctx.violation(sig, what, rep)
-    import time as _t; ctx.extra["replay_done_at_s"] = round(_t.time() - ctx.t0, 1)
-    b0 = next(iter(behs["p1-deep"].values()))[0]
-    ctx.sample(dict(behaviour=show(b0), expected=[dict(out=c["out"], ret=c.get("ret"), archive=pairs(c["arch"]), damaged=c["damaged"]) for c in b0["calls"]]))
+    ctx.extra["replay_done_at_s"] = round(_t.time() - ctx.t0, 1)
 
     # ---- 3. real worker processes (spawn) for processes=2 ----
     script = os.path.join(ctx.scratch, "x06_real.py"); open(script, "w").write(REAL_SCRIPT % VERIF)
-    groups = behs["p2"]
-    def pick(pred, n):
-        ks = [k for k in groups if pred(groups[k][0]["calls"])]
-        return random.Random(ctx.seed + 11).sample(ks, min(n, len(ks)))
-    chosen = (pick(lambda cs: all(c["op"] == "save" and c["fault"]["t"] == "none" for c in cs) and len(cs[0]["self"]) >= 2, ctx.pick(2, 8))
-              + pick(lambda cs: cs[0]["op"] == "save" and cs[0]["fault"]["t"] == "readfail" and cs[1]["op"] == "save" and cs[1]["fault"]["t"] == "none" and len(cs[0]["self"]) >= 2, ctx.pick(2, 8)))
     nreal = 0
-    for i, k in enumerate(chosen):
+    for i, cands in enumerate(real):
         opt = dict(mode="same" if i % 2 else "fresh", seed=ctx.seed + i, logger=1 + i, impl="real", path=os.path.join(ctx.scratch, "real.zip"), side=os.path.join(ctx.scratch, "real.side"))
-        jf = os.path.join(ctx.scratch, "x06_job.json"); json.dump(dict(cands=groups[k], opt=opt), open(jf, "w"))
-        ctx.case(("real", k, opt["mode"])); nreal += 1
+        jf = os.path.join(ctx.scratch, "x06_job.json"); json.dump(dict(cands=cands, opt=opt), open(jf, "w"))
+        ctx.case(("real", input_key(cands[0]), opt["mode"])); nreal += 1
         try:
             p = subprocess.run([sys.executable, "-W", "ignore", script, jf], capture_output=True, text=True, timeout=600)
             d = json.loads(p.stdout.strip().splitlines()[-1])
         except subprocess.TimeoutExpired:
-            ctx.violation("save:real-spawn:hang", "a save(processes=2) behaviour on real worker processes did not end within 600 s: %s" % show(groups[k][0]), dict(behaviour=groups[k][0])); continue
+            ctx.violation("save:real-spawn:hang", "a save(processes=2) behaviour on real worker processes did not end within 600 s: %s" % show(cands[0]), dict(behaviour=cands[0])); continue
         except Exception:
             raise RuntimeError("real multi-process run failed: %s %s" % (p.stdout[-500:], p.stderr[-2000:]))
         stats.update({"real:" + a: b for a, b in d["stats"].items()})
